@@ -797,8 +797,12 @@ class Array(Tuple):
         self.original_value = list(values)
 
     def get_sql(self, ctx: SqlContext) -> str:
-        if ctx.parameterizer is None or not ctx.parameterizer.should_parameterize(
-            self.original_value
+        # only an array of plain values is one parameter; with a column or expression among its elements
+        # the elements are rendered (and their constants parameterized) one by one
+        if (
+            ctx.parameterizer is None
+            or any(isinstance(value, Node) for value in self.original_value)
+            or not ctx.parameterizer.should_parameterize(self.original_value)
         ):
             element_ctx = ctx.copy(with_alias=False)
             values = ",".join(term.get_sql(element_ctx) for term in self.values)
